@@ -552,6 +552,16 @@ func (p *Pos) Legal() []Move {
 }
 
 // Make returns the successor position (the move is assumed pseudo-legal).
+// IsLegalListed reports whether m is one of the legal moves of p (exact match incl. kind).
+func (p *Pos) IsLegalListed(m Move) bool {
+	for _, l := range p.Legal() {
+		if l == m {
+			return true
+		}
+	}
+	return false
+}
+
 func (p *Pos) Make(m Move) Pos {
 	n := *p
 	w := p.White
